@@ -39,3 +39,49 @@ def decodeNat (tok : String) : Option Nat :=
   if tok.startsWith "i:" then ((tok.drop 2).toString).toNat? else none
 
 end SeaQ.Util
+
+namespace SeaQ.Util
+
+/-- S-expressions for the recipe language -/
+inductive Sexp where
+  | atom (s : String)
+  | list (l : List Sexp)
+  deriving Repr, Inhabited
+
+/-- tokens: `(`, `)`, and maximal runs of other non-space characters -/
+def sexpTokens (s : String) : List String :=
+  let step (st : List String × String) (c : Char) : List String × String :=
+    let (acc, cur) := st
+    let flush := if cur.isEmpty then acc else cur :: acc
+    if c == '(' then ("(" :: flush, "")
+    else if c == ')' then (")" :: flush, "")
+    else if c == ' ' || c == '\t' || c == '\n' || c == '\r' then (flush, "")
+    else (acc, cur.push c)
+  let (acc, cur) := s.foldl step ([], "")
+  (if cur.isEmpty then acc else cur :: acc).reverse
+
+/-- parse one S-expression from a token list; fuel bounds the recursion -/
+def parseSexp : Nat → List String → Option (Sexp × List String)
+  | 0, _ => none
+  | _, [] => none
+  | f+1, t :: rest =>
+    if t == "(" then parseList f rest []
+    else if t == ")" then none
+    else some (.atom t, rest)
+where
+  parseList : Nat → List String → List Sexp → Option (Sexp × List String)
+    | 0, _, _ => none
+    | _, [], _ => none
+    | f+1, t :: rest, acc =>
+      if t == ")" then some (.list acc.reverse, rest)
+      else match parseSexp f (t :: rest) with
+        | some (x, rest') => parseList f rest' (x :: acc)
+        | none => none
+
+def readSexp (s : String) : Option Sexp :=
+  let toks := sexpTokens s
+  match parseSexp (2 * toks.length + 2) toks with
+  | some (x, []) => some x
+  | _ => none
+
+end SeaQ.Util
